@@ -478,6 +478,12 @@ def gen_read(g, dv, include_summary_group=True):
   rng = g.rng
   ts = dv.user_tables(include_summary=True)
   kind = rng.choice(READ_CALLS)
+  adders = [(t2, c2) for t2 in ts for c2 in t2.cols.values()
+            if c2.formula and "lookupOrAddDerived" in c2.formula and not c2.isFormula and t2.row_ids]
+  if adders and rng.random() < 0.3:
+    # a trigger formula that would add a record if it were evaluated now
+    t2, c2 = rng.choice(adders)
+    return rng.choice(["get_formula_error", "evaluate_formula"]), [t2.tableId, c2.colId, rng.choice(t2.row_ids)]
   if not ts and kind not in ("fetch_meta_tables", "fetch_table_schema"):
     kind = "fetch_meta_tables"
   if kind == "fetch_meta_tables":
@@ -541,7 +547,7 @@ class C29(HistoryProfile):
   def base_weights(self):
     w = dict(gen.DEFAULT_WEIGHTS)
     w.update({"add_formula_column": 10, "add_summary": 5, "add_summary_formula": 2, "trigger_column": 3,
-              "display_formula": 2, "derived_trigger": 5})
+              "display_formula": 2, "derived_trigger": 14, "add_table": 6})
     return w
 
   def new_sim(self, cfg):
